@@ -27,7 +27,8 @@ def gen_sub(rng, name, inner):
     with parameters, optionally calling earlier subroutines (nested includes)"""
     nm = rng.randrange(1, 4)
     modes = rng.sample(range(0, 10), nm)
-    params = rng.sample(["a", "al", "phi", "x", "t1"], rng.choice([0, 0, 1, 2]))
+    params = rng.sample(["a", "al", "phi", "x", "t1", "op", "expr", "lambda", "kwargs", "q1_phase", "bb", "modes"],
+                        rng.choice([0, 0, 1, 2]))
     body = []
     for _ in range(rng.randrange(1, 5)):
         k = rng.randrange(1, min(nm, 2) + 1)
@@ -137,8 +138,9 @@ def gen_tree(rng):
     for i in range(nsubs):
         subs.append(gen_sub(rng, "Sub%d" % i, [s for s in subs if rng.random() < 0.6]))
     subd = {s["name"]: s for s in subs}
-    dirs = ["", "lib", "lib/deep", "other"]
-    paths = {s["name"]: os.path.join(rng.choice(dirs), s["name"].lower() + ".xbb") for s in subs}
+    dirs = ["", "lib", "lib/deep", "other", "lib.v2", "my lib"]
+    exts = [".xbb", ".xbb", ".xbb", "", ".bb", ".txt", ".v1.xbb", ".XBB"]
+    paths = {s["name"]: os.path.join(rng.choice(dirs), s["name"].lower() + rng.choice(exts)) for s in subs}
     main_dir = rng.choice(["", "prog", "prog/x"])
     main_path = os.path.join(main_dir, "main.xbb")
     files = {}
@@ -345,6 +347,19 @@ def run(ctx):
         elif msg:
             ctx.violation("include: " + msg, {"kind": "tree", "files": files, "main": main, "inlined": inlined,
                                               "proc_dirs": proc_dirs, "extras": extras})
+    # files are text in UTF-8: a string literal with non-ASCII characters in the main file and in an included one
+    for _ in range(ctx.n(3, 30)):
+        w1, w2 = ctx.rng.sample(["é", "ü ö", "日本", "a·b", "naïve", "π"], 2)
+        m = ctx.rng.randrange(0, 6)
+        files = {"lib/u.xbb": 'name U\nversion 1.0\n\nG("%s", 0.5) | 0\n' % w1,
+                 "main.xbb": 'name main\nversion 1.0\ninclude "lib/u.xbb"\n\nU | %d\nH("%s") | 1\n' % (m, w2)}
+        inlined = 'name main\nversion 1.0\n\nG("%s", 0.5) | %d\nH("%s") | 1\n' % (w1, m, w2)
+        ctx.count("non-ascii-text-in-files")
+        ctx.case(sorted(files.items()), nontrivial=True)
+        msg = check_tree(files, "main.xbb", inlined, [("", True)], lines, 0)
+        if msg and msg != OOD:
+            ctx.violation("include: " + msg, {"kind": "tree", "files": files, "main": "main.xbb", "inlined": inlined,
+                                              "proc_dirs": [("", True)], "extras": 0})
     outs = core.model_batch([l for l, _ in lines])
     for (l, inlined), o in zip(lines, outs):
         m = sx.dec_result(o)
